@@ -79,6 +79,26 @@ def any_tensor(*vals):
   return any(isinstance(v, Tensor) for v in vals)
 
 
+def _int_dtype(dt):
+  """Conversion function of an integer / boolean numpy dtype given as type
+  object or name, else None."""
+  n = getattr(dt, "name", dt) if not isinstance(dt, str) else dt
+  if dt is int:
+    n = "int"
+  if dt is bool:
+    n = "bool"
+  if not isinstance(n, str):
+    return None
+  n = n.split(".")[-1]
+  if n in ("bool", "bool_"):
+    return lambda e: 1 if fr(e) != 0 else 0
+  if n in ("int", "int8", "int16", "int32", "int64", "uint8", "uint16",
+           "uint32", "uint64", "intc", "intp", "int_"):
+    import math
+    return lambda e: int(math.trunc(fr(e)))
+  return None
+
+
 def shape_of(*vals):
   for v in vals:
     if isinstance(v, Tensor) and v.shape is not None:
@@ -589,6 +609,25 @@ def call(pe, name, args, kwargs, node):
     return unary(pe, "round", args[0])
   if name in UNARY:
     return unary(pe, UNARY[name], args[0])
+  if name in ("np.asarray", "np.array") and args and _int_dtype(
+      arg(args, kwargs, 1, "dtype")) is not None:
+    # an integer / boolean dtype truncates (towards zero) what it is given
+    conv = _int_dtype(arg(args, kwargs, 1, "dtype"))
+    v = args[0]
+    if isinstance(v, NDArr):
+      if all(is_num(e) for e in v.flat()):
+        return NDArr.from_flat([conv(e) for e in v.flat()], v.shape)
+    elif isinstance(v, (list, tuple, NArr)) and v and all(
+        isinstance(r, (list, tuple)) for r in v):
+      nd = NDArr([list(r) for r in v])
+      if all(is_num(e) for e in nd.flat()):
+        return NDArr.from_flat([conv(e) for e in nd.flat()], nd.shape)
+    elif isinstance(v, (list, tuple, NArr, range)) and all(
+        is_num(e) for e in v):
+      return NArr(conv(e) for e in v)
+    elif is_num(v):
+      return conv(v)
+    pe.err("np.array(..., dtype=<integer>) of %r" % (v,), node)
   if name in ("np.asarray", "np.array") and args and isinstance(
       args[0], NDArr):
     return args[0]
